@@ -2894,6 +2894,20 @@ KW_PAIRS = [("when", "WHEN"), ("exists", "EXISTS"), ("empty", "EMPTY"), ("some",
             ("is_null", "IS_NULL"), ("null", "NULL"), ("this", "THIS"), ("or", "OR"), ("not", "NOT")]
 
 
+def kw_named(ast):
+    """does a keyword-table word occur as a string LEAF (a rule / variable / key name) of the typed AST?"""
+    words = {w for pair in KW_PAIRS for w in pair}
+    def walk(x):
+        if isinstance(x, str):
+            return x in words
+        if isinstance(x, dict):
+            return any(walk(v) for v in x.values())
+        if isinstance(x, list):
+            return any(walk(v) for v in x)
+        return False
+    return walk(ast)
+
+
 def respell(rng, text, cls):
     """one token class varied: returns a variant of `text` (or None if the class does not occur)"""
     import re as _re
@@ -3071,6 +3085,12 @@ def run_C14(ctx):
                         cls, base.get("parse") or "parsed", v.get("parse") or "parsed"), **{"class": "c14-parse"}))
                     continue
                 if base.get("ast") is not None and strip_ast(base["ast"]) != strip_ast(v["ast"]):
+                    if cls == "keyword-case" and kw_named(base["ast"]):
+                        # a word of the keyword table is used as a NAME in the base program (`inner !empty` inside a `when`
+                        # condition is the negated reference to a rule called `empty`): the textual re-spelling renames it,
+                        # which is not a re-spelling of a keyword - no claim
+                        res.stats["c14-skip-keyword-used-as-name"] += 1
+                        continue
                     res.judge_failures.append(dict(info, what="re-spelling (%s) changes the parsed program" % cls, **{"class": "c14-ast"}))
                     continue
             if bo.get("kind") == "ok" and vo.get("kind") == "ok":
@@ -3396,6 +3416,25 @@ def c05_scenarios(ctx, n):
             txt = json.dumps(t)
             modes = [("rulegen", "plain", ["rulegen", "-t", "{DIR}/t.json"])]
             out.append({"kind": kind, "files": {"t.json": txt}, "modes": modes, "rules": "", "data": txt})
+    # multi-line templates with several failing resources: the console reporter prints a source excerpt per failing
+    # check, in the (hash) order of the resources - the excerpts must not depend on that order (fix 519a7b9)
+    for k in range(3):
+        nres = 3 + k
+        lines = ["Resources:"]
+        for j in range(nres):
+            lines += ["  res%c%d:" % ("abcde"[j], j), "    Type: AWS::S3::Bucket", "    Properties:",
+                      "      Size: %d" % (j + 1), "      Name: n%d" % j] + (["      Tags: []"] if (j + k) % 2 else [])
+        if k == 2:
+            lines = ["# leading comment", ""] + lines
+        txt = "\n".join(lines) + "\n"
+        rules = ("rule sz {\nResources.*.Properties.Size == 99\n}\n"
+                 "rule nm {\nAWS::S3::Bucket {\nProperties.Name == 'zz'\nProperties.Tags !empty\n}\n}\n")
+        base = ["validate", "-r", "{DIR}/r.guard", "-d", "{DIR}/t.yaml"]
+        modes = [("plain", "plain", base + ["-S", "all"]), ("plain-none", "plain", base + ["-S", "none"]),
+                 ("verbose", "plain", base + ["-S", "all", "-v"]),
+                 ("cfn-plain", "plain", base + ["-S", "all", "-t", "CFNTemplate"]),
+                 ("s-json", "bytes", base + ["--structured", "-o", "json", "-S", "none"])]
+        out.append({"kind": "validate", "files": {"r.guard": rules, "t.yaml": txt}, "modes": modes, "rules": rules, "data": txt})
     return out
 
 
